@@ -2,7 +2,7 @@
 # Sensitivity self-test: applies one patch to a scratch copy of /repo (never to /repo itself),
 # builds the simulator against the copy through a shadow manifest, runs the quick check of the
 # given properties there and reports which of them raise a violation.
-#   selftest/mutant.sh [--dev-only] <patch> <PROP>...
+#   selftest/mutant.sh [--dev-only] <patch> <PROP>...      (MUTANT_DIV=d: a d-th of the quick budget per check)
 # Prints one line per property:  <patch> <PROP> DETECTED|missed|harness-error  [first violation]
 set -u
 ROOT="$(cd "$(dirname "${BASH_SOURCE[0]}")/.." && pwd)"
@@ -59,7 +59,7 @@ if [ $DEVONLY -eq 0 ]; then
 fi
 mkdir -p "$S/vroot/sim/target"
 for P in "$@"; do
-  out="$("$BIN" check --prop "$P" --tier "${VERIF_TIER:-quick}" --seed "${VERIF_SEED:-1}" --root "$S/vroot" --stop-early 1 "${DEVARG[@]}" 2>&1)"; rc=$?
+  out="$("$BIN" check --prop "$P" --tier "${VERIF_TIER:-quick}" --seed "${VERIF_SEED:-1}" --root "$S/vroot" --stop-early 1 ${MUTANT_DIV:+--div $MUTANT_DIV} "${DEVARG[@]}" 2>&1)"; rc=$?
   first="$(echo "$out" | grep -m1 -E '^  C[0-9]+ \[' | cut -c1-220)"
   if [ "$P" = C06 ] && [ $rc -eq 0 ]; then
     # the auxiliary no_std build probe is part of the C06 check (./check runs it through substrates.sh)
